@@ -28,7 +28,8 @@ def perturb(g, rng, rel, ab):
     kinds = ["none", "mig_order", "descriptions", "header_nonsemantic", "anc_order", "deme_order", "epoch_value_big", "epoch_value_small",
              "epoch_drop", "mig_value_big", "mig_value_small", "pulse_value_big", "pulse_swap", "time_units", "generation_time",
              "start_time_big", "deme_rename", "pulse_drop", "mig_drop", "pulse_props_permute", "pulse_props_permute", "anc_props_permute",
-             "zero_time_abs_big", "zero_time_abs_big", "zero_time_abs_small"]
+             "zero_time_abs_big", "zero_time_abs_big", "zero_time_abs_small",
+             "anc_names_rotate", "pulse_sources_rotate", "equal_sizes_nonconstant", "equal_sizes_nonconstant"]
     kind = rng.choice(kinds)
     exp = None
     if kind == "none":
@@ -108,6 +109,37 @@ def perturb(g, rng, rel, ab):
                 exp = True
         else:
             exp = True
+    elif kind == "anc_names_rotate":
+        # the same proportions in the same positions, attached to other ancestors
+        cands = [dm for dm in d["demes"] if len(dm["ancestors"]) > 1 and max(dm["proportions"]) - min(dm["proportions"]) > 1e-3]
+        if cands:
+            dm = rng.choice(cands)
+            dm["ancestors"] = dm["ancestors"][1:] + dm["ancestors"][:1]; exp = False
+        else:
+            exp = True
+    elif kind == "pulse_sources_rotate":
+        cands = [p for p in d["pulses"] if len(p["sources"]) > 1 and max(p["proportions"]) - min(p["proportions"]) > 1e-3]
+        if cands:
+            p = rng.choice(cands)
+            p["sources"] = p["sources"][1:] + p["sources"][:1]; exp = False
+        else:
+            exp = True
+    elif kind == "equal_sizes_nonconstant":
+        # BOTH graphs are rebuilt: one has an epoch labelled exponential/linear whose sizes happen to be equal,
+        # the other the same epoch with another end size
+        cands = [(dm, j) for dm in d["demes"] for j, e in enumerate(dm["epochs"])
+                 if not (j == 0 and math.isinf(dm["start_time"]))]
+        if cands:
+            dm, j = rng.choice(cands)
+            e = dm["epochs"][j]
+            e["size_function"] = rng.choice(["exponential", "linear"])
+            e["end_size"] = e["start_size"]
+            if j + 1 < len(dm["epochs"]) and False:
+                pass
+            d1 = copy.deepcopy(d)
+            e["end_size"] = e["start_size"] * 2
+            return kind, (d1, d), False
+        exp = True
     elif kind == "pulse_props_permute":
         # same sources, proportions attached to different sources
         cands = [p for p in d["pulses"] if len(p["sources"]) > 1 and max(p["proportions"]) - min(p["proportions"]) > 1e-3]
@@ -171,7 +203,9 @@ def run(ctx):
                 rel, ab = ctx.rng.choice(TOLS)
                 kind, d2, exp = perturb(g, ctx.rng, rel, ab)
                 try:
-                    if kind == "deme_rename":
+                    if isinstance(d2, tuple):
+                        ga = demes.Graph.fromdict(d2[0]); g2 = demes.Graph.fromdict(d2[1])
+                    elif kind == "deme_rename":
                         names = [x.name for x in g.demes]
                         g2 = g.rename_demes({names[0]: names[0] + "_q"}); exp = False
                     else:
@@ -180,7 +214,8 @@ def run(ctx):
                     continue
                 if kind == "pulse_swap" and exp is None:
                     exp = None if g2.asdict()["pulses"] != g.asdict()["pulses"] else True
-                for a, b in ((g, g2), (g2, g)):
+                g1 = ga if isinstance(d2, tuple) else g
+                for a, b in ((g1, g2), (g2, g1)):
                     req = {"op": "isclose", "a": enc(a.asdict()), "b": enc(b.asdict())}
                     if rel is not None:
                         req["rel"] = wire_num(rel); req["abs"] = wire_num(ab)
